@@ -19,6 +19,7 @@ CONSTANTS
   StaleClose = FALSE
   NoWatcher = FALSE
   InitBeforeCheck = FALSE
+  EarlyUnlock = FALSE
 INVARIANTS TypeOK AtMostOneDisc RegisterOnce DiscSeesDisconnected NoCrash OwnClose ClosedForACause GoneAfterDisc WireOrdered AllWritten
 PROPERTIES CloseReturns EndedGenDisconnects NoLeak
 CHECK_DEADLOCK FALSE
